@@ -14,6 +14,7 @@ import (
 	"github.com/akalin/gopar/rsec16"
 	"pgregory.net/rapid"
 	"verifharness/ref/fsx"
+	"verifharness/ref/gf16"
 	"verifharness/ref/model"
 	"verifharness/ref/par2ref"
 	"verifharness/ref/run"
@@ -451,6 +452,35 @@ func TestCheck(t *testing.T) {
 		files := []scen.FileSpec{{Name: "d/one.bin", Size: 4 * 12, Kind: "random", Seed: 5}}
 		do(Case{Files: files, Slice: 4, Base: "sing", Vols: []Vol{{Suffix: "a", Exps: []int{0}}, {Suffix: "b", Exps: []int{4369}}}, Scramble: 77,
 			Damage: []scen.Damage{{Op: "flip", File: 0, Off: 0}, {Op: "flip", File: 0, Off: 4 * 8}}, G: 2})
+	}
+	// non-contiguous exponents {0, e, e+1} with two missing slices whose constants agree at exponent e:
+	// the reconstruction needs a row exchange although the system is non-singular
+	{
+		idx := 0
+		for _, e := range []int{4369, 3855, 1285, 771} {
+			ci := gf16.PAR2Constants(60)
+			found := 0
+			for a := 0; a < len(ci) && found < 3; a++ {
+				for b := a + 1; b < len(ci) && found < 3; b++ {
+					if gf16.FPow(ci[a], uint64(e)) != gf16.FPow(ci[b], uint64(e)) {
+						continue
+					}
+					found++
+					idx++
+					if !cfg.Mine(idx) {
+						continue
+					}
+					third := (b + 2) % (b + 4)
+					if third == a || third == b {
+						third = b + 3
+					}
+					files := []scen.FileSpec{{Name: "one.bin", Size: 8 * (b + 5), Kind: "random", Seed: uint64(70 + idx)}}
+					rec.Class("constructed-zero-leading-minor")
+					do(Case{Files: files, Slice: 8, Base: "zl", Vols: []Vol{{Suffix: "x", Exps: []int{0, e}}, {Suffix: "y", Exps: []int{e + 1}}}, Scramble: uint64(idx),
+						Damage: []scen.Damage{{Op: "flip", File: 0, Off: 8 * a}, {Op: "flip", File: 0, Off: 8*b + 1}, {Op: "flip", File: 0, Off: 8*third + 2}}, G: 2})
+				}
+			}
+		}
 	}
 	cfg.SetRapid(cfg.N(350, 5000), 1)
 	rapid.Check(t, func(rt *rapid.T) {
